@@ -9,7 +9,7 @@ from props import base, c03
 from props.base import Context  # noqa: F401
 
 PID = 'C06'
-EXTRA_MODULES = ['DiffxVerif.Properties.C05Tree', 'DiffxVerif.Properties.C06Foreign']
+EXTRA_MODULES = ['DiffxVerif.Properties.C05Tree', 'DiffxVerif.Properties.C06Foreign', 'DiffxVerif.Properties.C05Concrete']
 TIE_MODULES = ['DiffxVerif.Tie.Dom', 'DiffxVerif.Tie.Sections']
 NEEDS = ['sections', 'options', 'text', 'dom']
 ASSUMPTIONS = [
